@@ -14,12 +14,12 @@ def base(**kw):
     return n, u, top
 def show(n): return [(c.name, c.lower_index, len(c.wires), c.is_array) for c in n.libraries[0].definitions[-1].cables]
 for label, f in [
-  ('K1 undefined direction', lambda: rt(base(direction=sdn.UNDEFINED)[0])),
-  ('K2 one-pin array port', lambda: [p.is_array for p in rt(base(pw=1, cw=1, parray=True)[0]).libraries[0].definitions[0].ports]),
-  ('K3 float property', lambda: (lambda b: (b[1].__setitem__('EDIF.properties', [{'identifier': 'D', 'value': 1000.0}]), rt(b[0])))(base())),
+  ('K1 undefined direction (REPAIRED: no exception, the port comes back UNDEFINED)', lambda: rt(base(direction=sdn.UNDEFINED)[0])),
+  ('K2 one-pin array port (REPAIRED: prints [True])', lambda: [p.is_array for p in rt(base(pw=1, cw=1, parray=True)[0]).libraries[0].definitions[0].ports]),
+  ('K3 float property (REPAIRED: no exception, written (number (e 1 3)))', lambda: (lambda b: (b[1].__setitem__('EDIF.properties', [{'identifier': 'D', 'value': 1000.0}]), rt(b[0])))(base())),
   ('K4 bus named _x', lambda: show(rt(base(cname='_x')[0]))),
   ('K5 scalar named x[1]', lambda: show(rt(base(cname='x[1]', cw=1, pw=1)[0]))),
-  ('K6 quote in string property', lambda: (lambda b: (b[1].__setitem__('EDIF.properties', [{'identifier': 'M', 'value': 'say "hi"'}]), rt(b[0])))(base())),
+  ('K6 quote in string property (REPAIRED: no exception, written %34%)', lambda: (lambda b: (b[1].__setitem__('EDIF.properties', [{'identifier': 'M', 'value': 'say "hi"'}]), rt(b[0])))(base())),
   ('K7 nets ab (bus) and a* (bus)', lambda: (lambda b: (b[2].create_cable(name='a*').create_wires(2), show(rt(b[0])))[1])(base(cname='ab'))),
 ]:
     try: print(label, '->', f())
